@@ -22,16 +22,22 @@ def st_history(draw, families=("sl", "nldf", "sdmx", "nldf+sdmx")):
     nops = draw(st.integers(3, 6))
     ops = []
     for _ in range(nops):
-        kind = draw(st.sampled_from(["eval", "eval", "eval", "batch", "batch", "regrid_inplace", "regrid_new", "reset"]))
+        kind = draw(st.sampled_from(["eval", "eval", "eval", "batch", "batch", "regrid_inplace", "regrid_new", "reset", "reset_mol"]))
         mi = draw(st.integers(0, nmol - 1))
         if kind in ("eval", "batch"):
             ops.append({"op": kind, "mol": mi, "uks": draw(st.booleans()), "seed": draw(st.integers(0, 10**6)),
                         "nset": draw(st.integers(2, 3)) if kind == "batch" else 1,
                         "mem": draw(st.integers(0, len(MEMLEVELS) - 1))})
+        elif kind == "reset_mol":
+            # mf.reset(mol): the integrator is told the molecule of the evaluation that follows
+            ops.append({"op": "reset", "mol": mi})
+            ops.append({"op": "eval", "mol": mi, "uks": draw(st.booleans()), "seed": draw(st.integers(0, 10**6)), "nset": 1,
+                        "mem": draw(st.integers(0, len(MEMLEVELS) - 1))})
         elif kind in ("regrid_inplace", "regrid_new"):
             ops.append({"op": kind, "mol": mi, "level": draw(st.integers(0, 1))})
         else:
-            ops.append({"op": "reset"})
+            # reset() as PySCF's mf.reset(mol) calls it: without a molecule, or with the molecule of a later evaluation
+            ops.append({"op": "reset", "mol": draw(st.sampled_from([None, 0, 1]))})
     if not any(o["op"] in ("eval", "batch") for o in ops[1:]):
         ops.append({"op": "eval", "mol": 0, "uks": False, "seed": 1, "nset": 1, "mem": 0})
     return {"model": model, "mols": mols, "calc": draw(G.st_calc()), "ops": ops}
@@ -87,9 +93,13 @@ def _history(case, ctx):
         k = op["op"]
         ctx.event("op=" + k)
         if k == "reset":
-            ni.reset()
+            if op.get("mol") is None:
+                ni.reset()
+                hist.append("reset")
+            else:
+                ni.reset(mols[op["mol"]])
+                hist.append("reset(mol%d)" % op["mol"])
             changed_since_eval = "reset"
-            hist.append("reset")
             continue
         if k == "regrid_inplace":
             g = grids[op["mol"]]
